@@ -403,12 +403,32 @@ def run_hist(ctx, cfg, size, hist, extra):
 SPAN = re.compile(r'<span style="color:(#[0-9a-f]{6});background:(#[0-9a-f]{6})[^"]*">(.*?)</span>', re.S)
 
 
+HTML_CHARS = ["a", "&", "<", ">", '"', "'", ";", "\u6728", " "]
+
+
+def html_frames(size, tier):
+    """rows over the characters HTML gives a meaning to (plus a wide one and a blank) in two attributes, with every cursor position"""
+    cols, rows_n = size
+    kinds = [(ch, a) for ch in HTML_CHARS for a in ((None, "x") if tier != "quick" or ch in "a&<" else (None,))]
+    R = rows_alphabet("utf-8", cols, kinds)
+    top = (("&", None), ("a", "x"), ("<", None))[:cols]
+    out = []
+    for bot in R:
+        body = ((top,) if rows_n > 1 else ()) + (bot,)
+        for cur in [None] + [(x, y) for y in range(rows_n) for x in range(cols)]:
+            out.append((body, cur))
+    return out
+
+
 def html_task(task, ctx: Ctx):
     size, tier, lo, hi = task
     env.reset("utf-8")
     from urwid.display.html_fragment import HtmlGenerator
 
-    frames = frames_for("utf-8", size, tier, "single")[lo:hi]
+    if tier.startswith("special-"):
+        frames = html_frames(size, tier[len("special-"):])[lo:hi]
+    else:
+        frames = frames_for("utf-8", size, tier, "single")[lo:hi]
     for rows, cur in frames:
         ctx.count("evaluations")
         case = {"html": True, "size": size, "rows": rows, "cursor": cur}
@@ -437,6 +457,11 @@ def html_task(task, ctx: Ctx):
             want = "".join(ch for ch, a in r)
             if text != want or rest:
                 ctx.violation("html-text", "C04/html-text/row", case, f"row {y}: html text {text!r} (+{rest!r}), canvas {want!r}")
+            for _, _, t in spans:
+                plain = t.replace("&quot;", '"').replace("&#x27;", "'").replace("&#39;", "'")
+                if htmlmod.escape(htmlmod.unescape(t), quote=False) != plain:
+                    ctx.violation("html-text", "C04/html-text/escaping", case, f"row {y}: span text {t!r} is not the HTML-escaped form of {htmlmod.unescape(t)!r}")
+                    break
         # at most one highlighted cursor cell: a span whose colours are the swap of its neighbours is the cursor cell; count spans of exactly one character on the cursor row
         if cur is not None:
             cy = cur[1]
@@ -492,6 +517,10 @@ def run(tier, R):
         n = len(frames_for("utf-8", size, tier, "single"))
         for lo in range(0, n, 500):
             th.append((size, tier, lo, lo + 500))
+    for size in ((3, 1), (3, 2)) if tier == "quick" else ((3, 1), (3, 2), (4, 1)):
+        n = len(html_frames(size, tier))
+        for lo in range(0, n, 500):
+            th.append((size, "special-" + tier, lo, lo + 500))
     R.run_tasks(html_task, th, recheck=0.05)
     ev = int(R.ctx.counts["evaluations"])
     n4 = ev - n1 - n2 - n3
@@ -506,7 +535,7 @@ def run(tier, R):
         f"underline/standout, undefined name, AttrSpec objects with underline / standout / plain colours) at sizes {sizes}, cursor none / top-left / bottom-right; "
         f"20 configurations (depth 1/16/88/256/2^24 x back_color_erase x utf-8 / iso-8859-1); (a) every frame painted on a cleared screen with unknown contents, (b) every "
         "ordered pair of a frame subset (every k-th row + rows ending in attributed blanks / one-cell runs) drawn consecutively, (c) draw-clear-draw, draw-same-canvas-draw, "
-        "draw-resize-draw histories; each draw interpreted by mc/refs/vt_ref.py; HTML back-end on the single frames. non-trivial = distinct (configuration, history) that "
+        "draw-resize-draw histories; each draw interpreted by mc/refs/vt_ref.py; HTML back-end on the single frames and on every 3-cell row over the characters HTML gives a meaning to (& < > \" ' ;), a wide character and a blank, with every cursor position (text equals the canvas text, each span is properly escaped, at most one cursor cell). non-trivial = distinct (configuration, history) that "
         "painted correctly",
         "exhaustive": True,
         "parts": {"full_paints": n1, "incremental": n2, "clear_resize_histories": n3, "html": n4},
